@@ -142,6 +142,9 @@ def normalize(res, sc, tid):
         elif k == 'TaskEnd':
             if e.get('stage') == 'io':
                 ev.append({'e': 'IoTask', 'ph': 'e'})
+            if e.get('stage') == 'request' and e.get('task') == 'UploadPartTask' \
+                    and 0 <= e.get('xid', -1) < nx:
+                ev.append({'e': 'PartTask', 'ph': 'e', 'x': e['xid']})
         elif k == 'Call':
             ev.append({'e': 'Call', 'x': X(e)})
         elif k == 'Ret':
@@ -300,6 +303,9 @@ def normalize(res, sc, tid):
         elif k == 'ExecSubmit':
             ev.append({'e': 'ExecSubmit', 'stage': e['stage'],
                        'inflight': e['inflight']})
+            if e.get('stage') == 'request' and e.get('task') == 'UploadPartTask' \
+                    and 0 <= e.get('xid', -1) < nx:
+                ev.append({'e': 'PartTask', 'ph': 's', 'x': e['xid']})
         elif k == 'SrcRead':
             ev.append({'e': 'SrcRead', 'x': X(e), 'len': e['len']})
         elif k in ('Deadlock', 'StepBudget'):
